@@ -35,7 +35,7 @@ var AllTypes = []string{"int8", "int16", "int32", "int64", "uint8", "uint16", "u
 // DefaultGen is a rich default configuration.
 func DefaultGen() GenOpts {
 	return GenOpts{Types: AllTypes, KeyTypes: []string{"string", "int32", "int64", "uint8", "boolean", "enumeration"}, MaxDepth: 3, MaxChildren: 5,
-		Lists: true, CompoundKeys: true, Choices: true, NestedChoice: true, LeafLists: true, Defaults: true, ConfigFalse: true, Presence: true, Unions: true, Augments: true}
+		Lists: true, CompoundKeys: true, Choices: true, NestedChoice: true, LeafLists: true, Defaults: true, ConfigFalse: true, Presence: true, Unions: true, Augments: true, Leafrefs: true}
 }
 
 type genState struct {
@@ -103,7 +103,14 @@ func MakeType(t *rapid.T, base string, mod *Module, label string) *Type {
 		ty.IdBase = "idbase"
 		ty.Idents = []string{"id-a", "id-b", "id-c"}
 	case "union":
-		ty.Members = []*Type{{Base: "int32"}, {Base: "boolean"}, {Base: "string"}}
+		switch rapid.IntRange(0, 3).Draw(t, label+"-members") {
+		case 0:
+			ty.Members = []*Type{{Base: "decimal64", FD: 8}, {Base: "string"}}
+		case 1:
+			ty.Members = []*Type{{Base: "enumeration", Enums: []EnumDef{{"red", 1000}, {"green", 2000}}}, {Base: "int8"}} // no int8 is an enum value
+		default:
+			ty.Members = []*Type{{Base: "int32"}, {Base: "boolean"}, {Base: "string"}}
+		}
 	}
 	return ty
 }
@@ -113,6 +120,9 @@ func GenModule(t *rapid.T, o GenOpts) *Module {
 	g := &genState{t: t, o: o, mod: &Module{Name: "gm"}}
 	n := rapid.IntRange(1, o.MaxChildren).Draw(t, "ntop")
 	g.mod.Top = g.children(n, 0, true)
+	if o.Leafrefs {
+		g.leafrefs()
+	}
 	if o.Augments {
 		GenLayout(t, g.mod)
 		if n := len(g.mod.Identities); n > 0 && rapid.IntRange(0, 2).Draw(t, "submodule?") == 0 {
@@ -160,6 +170,55 @@ func GenLayout(t *rapid.T, m *Module) {
 	}
 	for _, n := range m.Top {
 		walk(n, false)
+	}
+}
+
+// leafrefs turns some leaves and leaf-lists into leafrefs to a top-level leaf (absolute path), the values being those of
+// the target's type.
+func (g *genState) leafrefs() {
+	var targets []*Node
+	for _, n := range g.mod.Top {
+		if n.Kind == "leaf" {
+			switch n.Type.Base {
+			case "empty", "bits", "binary", "identityref", "leafref":
+			default:
+				targets = append(targets, n)
+			}
+		}
+	}
+	if len(targets) == 0 {
+		return
+	}
+	var walk func(parent, n *Node)
+	walk = func(parent, n *Node) {
+		if n.IsLeafy() && n.Type.Base != "leafref" {
+			key, isTarget := false, false
+			for _, k := range parent.Keys {
+				key = key || k == n.Name
+			}
+			for _, tg := range targets {
+				isTarget = isTarget || tg == n
+			}
+			if !key && !isTarget && rapid.IntRange(0, 9).Draw(g.t, "leafref?") == 0 {
+				tg := targets[rapid.IntRange(0, len(targets)-1).Draw(g.t, "leafref-target")]
+				if n.Kind == "leaf-list" && tg.Type.Base == "union" {
+					return // the harness has no leaf-lists of unions
+				}
+				n.Type = &Type{Base: "leafref", Path: "/" + tg.Name, Target: tg.Type}
+				n.Default, n.Defaults = nil, nil
+				if g.o.Defaults && n.Kind == "leaf" && rapid.IntRange(0, 2).Draw(g.t, "leafref-default?") == 0 {
+					d := GenValue(g.t, n.Type, "default", true)
+					n.Default = &d
+				}
+			}
+		}
+		for _, c := range n.Children {
+			walk(n, c)
+		}
+	}
+	root := &Node{Kind: "module", Children: g.mod.Top}
+	for _, c := range g.mod.Top {
+		walk(root, c)
 	}
 }
 
@@ -367,11 +426,12 @@ func GenValue(t *rapid.T, ty *Type, label string, easy bool) string {
 	case "empty":
 		return ""
 	case "union":
-		switch rapid.IntRange(0, 2).Draw(t, label+"-member") {
-		case 0:
-			return GenValue(t, &Type{Base: "int32"}, label, easy)
-		case 1:
-			return b2s(rapid.Bool().Draw(t, label))
+		if len(ty.Members) == 0 {
+			return "v"
+		}
+		// texts of a string member are such that no other member reads them
+		if m := ty.Members[rapid.IntRange(0, len(ty.Members)-1).Draw(t, label+"-member")]; m.Base != "string" {
+			return GenValue(t, m, label, easy)
 		}
 		return rapid.SampledFrom([]string{"alpha", "x y", "n/a", "ü"}).Draw(t, label)
 	}
